@@ -7,6 +7,10 @@
    operand, so `d = a - b; b -= a` changes d afterwards (found with
    ManyToMany.__setitem__: counterexample that did not replay).  The shim
    snapshots the operand exactly as the sibling operators (__or__, __and__) do.
+3. builtinslib._dict_get (the patch for dict.get) copies a dict through self.items();
+   for a dict *subclass* that overrides items() (OrderedMultiDict: (key, last value))
+   that is not the stored mapping, so super().get(k, [d])[-1] subscripted an int.
+   The shim reads the storage with dict.items(self).
 """
 
 
@@ -37,3 +41,18 @@ def install():
                 ss.LazySetCombination(lambda a, b: (b and not a), self._inner, ss._force_arg_to_set(x)))
     ss.ShellMutableSet.__sub__ = _sub
     ss.ShellMutableSet.__rsub__ = _rsub
+
+    from crosshair import core as _core
+    from crosshair.libimpl import builtinslib as _bl
+    from crosshair.tracers import ResumedTracing
+
+    def _dict_get(self, key, default=None):
+        with NoTracing():
+            if not isinstance(key, (int, float, str)):
+                if not isinstance(self, dict):
+                    raise TypeError
+                symbolic_self = _bl.SimpleDict(list(dict.items(self)))
+                with ResumedTracing():
+                    return symbolic_self.get(key, default)
+        return dict.get(self, key, default)
+    _core._PATCH_REGISTRATIONS[dict.get] = _dict_get
